@@ -300,3 +300,55 @@ func vh_C12_binconst() {
 	vAssert("C12.rule.const.rejects-ill-typed", want || err != nil)
 	vAssert("C12.rule.const.accepts-well-typed", !want || err == nil)
 }
+
+// var b T = c with an untyped constant c (integer of any value, true, a string)
+// and T a boolean, integer or string type, or interface{} (index 17).
+func vhGoAcceptsAssignConst(dst int, v vBig) bool {
+	d := "interface{}"
+	if dst < len(vhBasicNames) {
+		d = vhBasicNames[dst]
+	}
+	return vhGoTypesAccepts("package p\nvar b " + d + " = " + vhConstText(v) + "\nvar _ = b\n")
+}
+
+func vmGoAcceptsAssignConst(dst int, v vBig) bool {
+	if dst == 17 {
+		// the constant takes its default type: an integer constant must fit int
+		return vhConstKind != 0 || (vBigLe(vKindMin(reflect.Int), v) && vBigLe(v, vKindMax(reflect.Int)))
+	}
+	c := vmClass(dst)
+	switch vhConstKind {
+	case 1:
+		return c == 0
+	case 2:
+		return c == 4
+	}
+	if c != 1 {
+		return c == 2 || c == 3
+	}
+	k := reflect.Kind(dst + 1)
+	return vBigLe(vKindMin(k), v) && vBigLe(v, vKindMax(k))
+}
+
+func vh_C12_assignconst() {
+	sc := initUniverse()
+	in := vhNewInterp()
+	dst := vConcretizeInt(vNondetInt("dst"), 0, 17)
+	v := vBigInt64(0)
+	if vhConstKind == 0 {
+		vAssume(dst <= 11 || dst >= 16)
+		v = vBigNondet("v")
+		lim := vBigPow2(70)
+		vAssume(vBigLe(vBigNeg(lim), v) && vBigLe(v, lim))
+	}
+	c := vhConstNodeOf(in, v)
+	dt := sc.getType("interface{}")
+	if dst < 17 {
+		dt = sc.getType(vhBasicNames[dst])
+	}
+	vReach("C12.rule.assignconst")
+	err := typecheck{scope: sc}.assignment(c, dt, "assignment")
+	want := vhGoAcceptsAssignConst(dst, v)
+	vAssert("C12.rule.assignconst.rejects-ill-typed", want || err != nil)
+	vAssert("C12.rule.assignconst.accepts-well-typed", !want || err == nil)
+}
